@@ -105,7 +105,8 @@ type SessionOpts struct {
 	MaxBatch     int      // type 5: maximum number of nonces
 	BigBatches   bool     // type 5: also batch sizes crossing the 1->2->4 byte varint boundaries
 	OKey         *oprf.PrivateKey
-	RKeyIdx      int // -1: draw
+	RKeyIdx      int             // -1: draw
+	RKey         *rsa.PrivateKey // overrides RKeyIdx (keys outside the pool, e.g. the small-exponent ones)
 	Challenge    []byte
 	Issuer3      *type3.RateLimitedIssuer // reuse an issuer (same name key, origins)
 	Origin       *string
@@ -279,6 +280,13 @@ func newSession(t *rapid.T, typ uint16, o SessionOpts) (*Session, error) {
 			idx = RSAKey().Draw(t, "rsakey")
 		}
 		s.RKey = RSAPool()[idx]
+		if o.RKeyIdx < 0 && Uniform(t, 8, "smallExponentKey") == 0 {
+			s.RKey = Pick(t, RSASmallExponentKeys(), "smallE") // a 2048-bit key with e = 3, 17 or 257
+			s.Mode += "+small-e"
+		}
+		if o.RKey != nil {
+			s.RKey = o.RKey
+		}
 		issuer := type2.NewBasicPublicIssuer(s.RKey)
 		s.KeyID = issuer.TokenKeyID()
 		var err error
@@ -313,13 +321,24 @@ func newSession(t *rapid.T, typ uint16, o SessionOpts) (*Session, error) {
 	case 3:
 		if o.Issuer3 != nil {
 			s.Issuer3 = o.Issuer3
-			s.RKey = RSAPool()[o.RKeyIdx]
+			if o.RKey != nil {
+				s.RKey = o.RKey
+			} else {
+				s.RKey = RSAPool()[o.RKeyIdx]
+			}
 		} else {
 			idx := o.RKeyIdx
 			if idx < 0 {
 				idx = RSAKey().Draw(t, "rsakey")
 			}
 			s.RKey = RSAPool()[idx]
+			if o.RKeyIdx < 0 && Uniform(t, 8, "smallExponentKey") == 0 {
+				s.RKey = Pick(t, RSASmallExponentKeys(), "smallE")
+				s.Mode += "+small-e"
+			}
+			if o.RKey != nil {
+				s.RKey = o.RKey
+			}
 			s.Issuer3 = type3.NewRateLimitedIssuer(s.RKey)
 			if s.Issuer3 == nil {
 				return nil, fmt.Errorf("NewRateLimitedIssuer returned nil")
